@@ -2,6 +2,7 @@ package main
 
 import (
 	"fmt"
+	"os"
 	"go/types"
 	"strings"
 
@@ -74,6 +75,7 @@ func (e *Engine) verifyUnit(fn *ssa.Function, ct *FuncContract, alias []string, 
 			}
 		}
 		fr.entry = st.clone()
+		x.assumeGlobalInvs(fr, st)
 		for _, r := range ct.Requires {
 			ctx := x.ownCtx(fr, st, false)
 			ctx.src = r.Src
@@ -85,6 +87,9 @@ func (e *Engine) verifyUnit(fn *ssa.Function, ct *FuncContract, alias []string, 
 		o.Expect = "sat"
 		// undo the assert-then-assume of `false`
 		vc.lines = vc.lines[:len(vc.lines)-1]
+	}
+	if os.Getenv("GOVC_SITES") != "" {
+		fr.dumpSites(x)
 	}
 	x.run(fr, st, args, bind)
 
